@@ -377,7 +377,8 @@ pub struct DrawCase {
     pub grouped: bool,
     pub script: Vec<u64>,
     pub draws: u8,
-    /// another population (same number of results) the same selector value selects from before every judged draw
+    /// another population the same selector value selects from before every judged draw; some of its
+    /// individuals may carry fewer results than configured, so that this selection fails part-way
     pub other: Option<Vec<Vec<i64>>>,
 }
 
@@ -405,6 +406,7 @@ fn draws_on<R: Res>(pop: &Pop<R>, other: Option<&Pop<R>>, c: &DrawCase, probe: &
     let mut rng = ScriptRng::new(&c.script, 0xC08);
     let sup = support(&c.matrix, c.errors, c.configured);
     let what = || format!("Lexicase::new({}) on {:?} ({})", c.configured, c.matrix, if c.errors { "errors" } else { "scores" });
+    let other_short = c.other.as_ref().is_some_and(|o| o.iter().any(|r| r.len() < c.configured));
     for d in 0..c.draws.max(1) {
         if let Some(o) = other {
             // whatever the selector value (or its thread) keeps from this call must not leak into the judged one
@@ -414,7 +416,9 @@ fn draws_on<R: Res>(pop: &Pop<R>, other: Option<&Pop<R>>, c: &DrawCase, probe: &
                 Ok(Ok(ptr)) if !o.iter().any(|i| std::ptr::eq(i, ptr)) => {
                     return Err(Fail::new("Lexicase/not-a-member", format!("{}: the winner on the other population is not one of its elements", what())));
                 }
-                Ok(Err(e)) if !o.is_empty() => return Err(Fail::new("Lexicase/spurious-error", format!("{}: selection from the other population ({} individuals): {e}", what(), o.len()))),
+                Ok(Err(e)) if !o.is_empty() && !other_short => {
+                    return Err(Fail::new("Lexicase/spurious-error", format!("{}: selection from the other population ({} individuals): {e}", what(), o.len())));
+                }
                 _ => {}
             }
         }
@@ -455,6 +459,9 @@ fn draws_on<R: Res>(pop: &Pop<R>, other: Option<&Pop<R>>, c: &DrawCase, probe: &
     if other.is_some() {
         probe.label("selector value also used on another population");
     }
+    if other_short {
+        probe.label("the other population has individuals with too few results (selection may fail part-way)");
+    }
     if c.matrix.is_empty() {
         probe.label("empty population");
     }
@@ -463,7 +470,7 @@ fn draws_on<R: Res>(pop: &Pop<R>, other: Option<&Pop<R>>, c: &DrawCase, probe: &
 
 pub fn draw_oracle(c: &DrawCase, probe: &mut Probe) -> Result<(), Fail> {
     let m = c.matrix.first().map_or(0, Vec::len);
-    if c.matrix.iter().any(|r| r.len() != m) || c.configured > m || m > 6 || c.other.as_ref().is_some_and(|o| o.iter().any(|r| r.len() != m)) {
+    if c.matrix.iter().any(|r| r.len() != m) || c.configured > m || m > 6 {
         return Ok(()); // outside the domain of this sub-check (C06 covers ragged results and larger counts)
     }
     match (c.grouped, c.errors) {
@@ -500,9 +507,21 @@ pub fn draw_strategy() -> BoxedStrategy<DrawCase> {
                 crate::rngs::script_strategy(24),
                 1u8..5,
                 prop_oneof![2 => Just(None), 1 => rows(0..=14, m, mode / 4).prop_map(Some)],
+                any::<u32>(),
             )
         })
-        .prop_map(|(mut matrix, errors, configured, grouped, script, draws, other)| {
+        .prop_map(|(mut matrix, errors, configured, grouped, script, draws, mut other, cut)| {
+            // in half of the other populations one or two individuals lose some of their results
+            if let Some(o) = other.as_mut() {
+                if cut % 2 == 0 && !o.is_empty() {
+                    let n = o.len();
+                    for k in 0..=(cut as usize / 2) % 2 {
+                        let row = &mut o[(cut as usize / 4 + k * 3) % n];
+                        let keep = (cut as usize / 64 + k) % (row.len() + 1);
+                        row.truncate(keep);
+                    }
+                }
+            }
             // groups of exact copies: survivors that can only be separated by the final uniform choice
             if matrix.len() >= 4 && matrix[0].iter().sum::<i64>() % 2 == 0 {
                 matrix[3] = matrix[0].clone();
